@@ -53,7 +53,7 @@ def make_custom(name):
     if name == "hamming":
         return "hamming"
     lev = oracles.levenshtein
-    scale = {"lev2": 2, "lev_plus_len": 1, "ham_or_big": 1, "lev_half": 0.5, "lev_frac": 0.25, "lev_np": 1, "lev_npf": 0.5}[name]
+    scale = {"lev2": 2, "lev_plus_len": 1, "ham_or_big": 1, "lev_half": 0.5, "lev_frac": 0.25, "lev_np": 1, "lev_npf": 0.5, "anti": 1, "content": 0.5}[name]
 
     if name == "lev2":
         def dist(a, b):
@@ -72,6 +72,13 @@ def make_custom(name):
             import numpy as np
 
             return np.int64(scale * lev(str(a), str(b)))
+    elif name == "anti":  # ranks candidates the other way round than Levenshtein does
+        def dist(a, b):
+            return max(0, 6 - scale * lev(str(a), str(b)))
+    elif name == "content":  # depends on composition, not on edits: a far candidate can be "closer" than a true neighbour
+        def dist(a, b):
+            a, b = str(a), str(b)
+            return abs(sum(map(ord, a)) % 5 - sum(map(ord, b)) % 5) + (scale if a != b else 0)
     elif name == "lev_npf":  # numpy float scalars, non-integer values
         def dist(a, b):
             import numpy as np
@@ -156,6 +163,11 @@ def generate(seed, tier, index=0):
         "steps": rng.randint(2, 5 if tier == "thorough" else 4),
         "max_returns_p": rng.choice([0.0, 0.3, 0.5, 0.8]),
     }
+    big = rng.random()
+    if big < 0.015 or (tier == "thorough" and big < 0.02):
+        # lists beyond any "small input" path: hundreds of tasks per pool, chunks of tens of rows
+        swarm["max_n"] = 600 if (tier == "thorough" and big >= 0.015) else 150
+        swarm["steps"] = 2
     take_w = [1.0] * 16
     deliver_w = [1.0] * 16
     deliver_bias = 1000.0
@@ -176,9 +188,11 @@ def generate(seed, tier, index=0):
     for _ in range(swarm["steps"]):
         mode = rng.choice(swarm["modes"])
         if mode == "custom":
-            mode = rng.choice(["lev2", "lev_plus_len", "ham_or_big", "lev_half", "lev_frac", "lev_np", "lev_npf"])
+            mode = rng.choice(["lev2", "lev_plus_len", "ham_or_big", "lev_half", "lev_frac", "lev_np", "lev_npf", "anti", "content"])
         n = rng.choice([1, 2, 3, rng.randint(1, swarm["max_n"]), rng.randint(2, swarm["max_n"]), swarm["max_n"]])
         n = max(1, min(n, swarm["max_n"]))
+        if swarm["max_n"] >= 150 and rng.random() < 0.7:
+            n = rng.randint(swarm["max_n"] // 3, swarm["max_n"])
         seqs = gen_seqs(rng, swarm, mode, n)
         if rng.random() < 0.05 and n >= 2:
             # (near-)identical lists: many duplicate points in the tree, all ties at d = 0
